@@ -64,7 +64,7 @@ def run(ctx):
     ng = gate([job(2, "mixed", "lb", "det", "sphere_out", "half", seeds[0]), job(1, "log", "ub", "decl", "sphere_corner", None, seeds[0])])
     sink = E1Sink(rep, PID)
     Ds = (1, 2) if q else (1, 2, 3)
-    geos = ("lin", "tight", "log", "mixed", "unb")
+    geos = ("lin", "tight", "log", "mixed", "unb", "log2", "lin2")
     # (a) complete product, b=0
     base = []
     for D in Ds:
@@ -81,7 +81,7 @@ def run(ctx):
                                 base.append(job(D, g, x0, mode, tgt, cons, s))
     st = explore(base, ["ans", "noise"], 0, sink, name="matrix/b0")
     # (b) adversarial scripts with <= b deviations, deterministic, success-rich base grows the mesh to its cap
-    adv = [job(D, g, x0, "det", "adv", c, seeds[0], base=b) for D in Ds for g in ("lin", "log", "tight") for x0 in ("in", "ub")
+    adv = [job(D, g, x0, "det", "adv", c, seeds[0], base=b) for D in Ds for g in ("lin", "log", "tight", "log2") for x0 in ("in", "ub")
            for c in (None, "half") for b in ("F", "S4")]
     st = explore(adv, ["ans"], 1 if q else 2, sink, stats=st, name="adv/b", pos_ok=(lambda k, p, r: p < 14) if q else None,
                  cap=None if q else st["executions"] + 40000)
@@ -89,7 +89,7 @@ def run(ctx):
     nz = [job(D, g, "ub", m, "sphere_out", None, seeds[0]) for D in Ds[:2] for g in ("lin", "log") for m in ("decl",)]
     st = explore(nz, ["noise"], 1, sink, stats=st, name="noisy/b1", pos_ok=lambda k, p, r: p % (6 if q else 2) == 0)
     # (d) long runs pressing against the faces
-    lg = [job(D, g, "in", "det", "sphere_out", None, s, opts={"tol_mesh": 1e-6, "max_fun_evals": 150}) for D in Ds for g in ("lin", "log", "mixed") if not (g == "mixed" and D == 1) for s in seeds]
+    lg = [job(D, g, "in", "det", "sphere_out", None, s, opts={"tol_mesh": 1e-6, "max_fun_evals": 150}) for D in Ds for g in ("lin", "log", "mixed", "log2", "lin2") if not (g == "mixed" and D == 1) for s in seeds]
     st = explore(lg, ["ans"], 0, sink, stats=st, name="long/faces")
     sink.finish_cov(st)
     # (e) E3: complete table of the search-bound rounding
